@@ -685,8 +685,12 @@ func (r *bkRig) close(w *coll, kind string) {
 
 // ---------------------------------------------------------------- generators
 
-var keyPool = [][]byte{[]byte("/a/x"), []byte("/a/y"), []byte("/b/x"), []byte("/a"), []byte("/ab")}
-var prefixPool = [][]byte{nil, []byte("/a/"), []byte("/b/"), []byte("/a"), []byte("/a/x"), []byte("/c/")}
+// keys and prefixes are byte strings: the last entries contain bytes that are not valid UTF-8, and keys / prefixes
+// that differ from them only after strings.ToValidUTF8(.., "?") (a run of invalid bytes becomes one '?')
+var keyPool = [][]byte{[]byte("/a/x"), []byte("/a/y"), []byte("/b/x"), []byte("/a"), []byte("/ab"),
+	[]byte("/u/\xff\xfe/k"), []byte("/u/?/k"), []byte("/u/\xc3/k")}
+var prefixPool = [][]byte{nil, []byte("/a/"), []byte("/b/"), []byte("/a"), []byte("/a/x"), []byte("/c/"),
+	[]byte("/u/\xff\xfe/"), []byte("/u/?/"), []byte("/u/")}
 
 func (r *bkRig) genOp(rnd *lib.Rand) wop {
 	k := rnd.PickB(keyPool)
@@ -880,6 +884,40 @@ func bkScenario(w *coll, rnd *lib.Rand, l int, scratch string, nWatch int, seq i
 		r.finish(x, true)
 	}
 	r.close(w, "backend-watch")
+}
+
+// bkBytes (fixed corpus): watch prefixes and keys are byte strings. Watchers on "/u/\xff\xfe/" (not valid UTF-8) and on
+// "/u/?/" (what it becomes when sanitised for a log line or a metric label), each once live-only (S = 0) and once
+// with catch-up from the cache followed by live events; writes under both prefixes before and after. Every watcher
+// must get exactly the writes under its own raw prefix, in both phases.
+func bkBytes(w *coll, scratch string, l int) {
+	r, err := newBkRig(l, 100, scratch)
+	if err != nil {
+		w.Fail(lib.ImplFailure{CaseID: -1, What: "cannot build backend: " + err.Error()})
+		return
+	}
+	raw, san := []byte("/u/\xff\xfe/"), []byte("/u/?/")
+	key := func(p []byte, s string) []byte { return append(append([]byte{}, p...), []byte(s)...) }
+	r.write([]wop{{kind: 0, key: key(raw, "a"), val: []byte("r1")}, {kind: 0, key: key(san, "a"), val: []byte("s1")},
+		{kind: 0, key: key(raw, "b"), val: []byte("r2")}})
+	first := r.sigma[0].rev
+	var ws []*bw
+	for _, P := range [][]byte{raw, san} {
+		ws = append(ws, r.watch(0, P, false, nil, nil))     // live only
+		ws = append(ws, r.watch(first, P, false, nil, nil)) // catch-up from the cache, then live
+	}
+	r.write([]wop{{kind: 0, key: key(raw, "c"), val: []byte("r3")}, {kind: 0, key: key(san, "c"), val: []byte("s3")},
+		{kind: 1, key: key(raw, "a"), val: []byte("r4"), exp: r.ref[string(key(raw, "a"))].rev},
+		{kind: 2, key: key(san, "a")}, {kind: 2, key: key(raw, "b")}})
+	r.writeBatch([]wop{{kind: 0, key: key(san, "d"), val: []byte("s5")}, {kind: 0, key: key(raw, "d"), val: []byte("r5")}})
+	for _, x := range ws {
+		r.settle(x, true)
+	}
+	for _, x := range ws {
+		r.finish(x, true)
+	}
+	r.kinds["non-utf8-prefix"] = true
+	r.close(w, "backend-byte-prefixes")
 }
 
 // bkWindow (fixed corpus): write r+1; the sequencer is parked at `point` for write r+2; the hub has drained;
